@@ -263,7 +263,9 @@ func VerifC13_unsorted_vs_nested_loop() {
 		verifAssert(i >= 0 && i < n && !seen[i] && !leftPaired[i] && ul, "C13/left-unpaired-once-and-only-unpaired")
 		if i >= 0 && i < n {
 			seen[i] = true
-			verifAssert(c13Same(o.Record, c13WantUnpaired(s, L[i], true, i)), "C13/left-unpaired-unchanged-but-renamed")
+			if !s.keepOnlyLid { // with --lk the statement does not say whether unpaired left records are cut down too
+				verifAssert(c13Same(o.Record, c13WantUnpaired(s, L[i], true, i)), "C13/left-unpaired-unchanged-but-renamed")
+			}
 		}
 	}
 	verifReach("C13/unsorted/end")
